@@ -13,7 +13,11 @@ import (
 
 	"github.com/trustbloc/sidetree-go/pkg/document"
 	"github.com/trustbloc/sidetree-go/pkg/patch"
+	"github.com/trustbloc/sidetree-go/pkg/api/protocol"
 	"github.com/trustbloc/sidetree-go/pkg/versions/1_0/doccomposer"
+	"github.com/trustbloc/sidetree-go/pkg/versions/1_0/doctransformer/didtransformer"
+	"github.com/trustbloc/sidetree-go/pkg/versions/1_0/model"
+	"github.com/trustbloc/sidetree-go/pkg/versions/1_0/operationparser"
 	"github.com/trustbloc/sidetree-go/pkg/versions/1_0/operationparser/patchvalidator"
 )
 
@@ -72,15 +76,23 @@ func guardDocs() []document.Document {
 	keyless := mk(false)
 	delete(keyless, "publicKey")
 
-	return []document.Document{mk(false), mk(true), keyless}
+	// ... and one without services
+	serviceless := mk(false)
+	delete(serviceless, "service")
+
+	return []document.Document{mk(false), mk(true), keyless, serviceless}
 }
 
 // the value an add / replace / test carries: chosen per destination so that the operation has
 // the best chance to apply
 func guardValue(doc document.Document, o gOp) interface{} {
 	switch o.Path {
-	case "/publicKey", "/service", "/publicKeyX", "/services", "/verificationMethod":
+	case "/publicKey", "/service", "/publicKeyX", "/services", "/publicKeys", "/verificationMethod":
 		return []interface{}{map[string]interface{}{"id": "evil"}}
+	case "/capabilityInvocation", "/keyAgreement":
+		// (an embedded verification method, as resolved documents may carry one)
+		return []interface{}{map[string]interface{}{"id": "did:sidetree:guard#evil", "type": "JsonWebKey2020", "controller": "did:evil:1",
+			"publicKeyJwk": map[string]interface{}{"kty": "EC", "crv": "P-256", "x": "evil", "y": "evil"}}}
 	case "/publicKey/0", "/publicKey/-", "/service/0":
 		return map[string]interface{}{"id": "evil", "type": "JsonWebKey2020"}
 	case "":
@@ -167,6 +179,10 @@ func guardReplay(args []string) {
 	col := newCollector("jsonpatchguard", fl.str("only", ""))
 	composer := doccomposer.New()
 	docs := guardDocs()
+	dproto := testProtocol(1)
+	dproto.MaxDeltaSize, dproto.MaxOperationSize = 100000, 200000
+	deltaParser := operationparser.New(dproto)
+	guardCommitment := refCommitment(map[string]interface{}{"kty": "EC", "crv": "P-256", "x": "x", "y": "y"}, sha2_256)
 	first := true
 
 	var accepted, applied, alteredUnvalidated, modelWrong int64
@@ -242,6 +258,36 @@ func guardReplay(args []string) {
 				}
 			}
 
+			// validation of a whole delta (Parser.ValidateDelta): the json patch in front of and behind another, harmless json
+			// patch - a delta passes only if each of its patches does, and what passes must not alter keys / services
+			if di == 0 {
+				var benign patch.Patch
+
+				_ = json.Unmarshal([]byte(`{"action":"ietf-json-patch","patches":[{"op":"add","path":"/note","value":"harmless"}]}`), &benign)
+
+				for oi, list := range [][]patch.Patch{{p, benign}, {benign, p}, {benign, p, benign}} {
+					derr := deltaParser.ValidateDelta(&model.DeltaModel{UpdateCommitment: guardCommitment, Patches: list})
+					if derr != nil {
+						continue
+					}
+
+					got, e2 := composer.ApplyPatches(doc, list)
+					if e2 != nil {
+						continue
+					}
+
+					if digestJSON(got["publicKey"]) != pkBefore || digestJSON(got["service"]) != svcBefore {
+						col.report(mismatch{Kind: "protected-altered", Key: guardKey(fmt.Sprintf("protected-altered-in-delta-%d", oi), c.Ops), Case: c,
+							Detail:   "a delta holding this json patch next to a harmless one passes Parser.ValidateDelta, and applying it changes keys / services",
+							Expected: map[string]interface{}{"publicKey": doc["publicKey"], "service": doc["service"]},
+							Actual:   map[string]interface{}{"publicKey": got["publicKey"], "service": got["service"]},
+							Concrete: map[string]interface{}{"patch": json.RawMessage(raw), "position": oi}, Replay: rp})
+
+						break
+					}
+				}
+			}
+
 			if panicked != "" || aerr != nil {
 				continue // no document came out: nothing was altered
 			}
@@ -250,8 +296,8 @@ func guardReplay(args []string) {
 
 			// the raw members, and what the library's own accessors read as the keys / services of the document
 			rawPK, rawSvc := digestJSON(out["publicKey"]) != pkBefore, digestJSON(out["service"]) != svcBefore
-			pkAltered := rawPK || guardView(out, true) != guardView(doc, true)
-			svcAltered := rawSvc || guardView(out, false) != guardView(doc, false)
+			pkAltered := rawPK || guardView(out, true) != guardView(doc, true) || guardResolved(out, true) != guardResolved(doc, true)
+			svcAltered := rawSvc || guardView(out, false) != guardView(doc, false) || guardResolved(out, false) != guardResolved(doc, false)
 
 			if !pkAltered && !svcAltered {
 				continue
@@ -289,6 +335,30 @@ func guardReplay(args []string) {
 	col.sum.Extra["altering_lists_stopped_by_validation"] = alteredUnvalidated
 	col.sum.Extra["documents"] = len(docs)
 	col.finish()
+}
+
+// guardResolved: the keys (services) of the RESOLVED document: verification methods and the five relationships (services).
+func guardResolved(d document.Document, keys bool) (out string) {
+	defer func() {
+		if r := recover(); r != nil {
+			out = "panic"
+		}
+	}()
+
+	cp, _ := deepCopyGeneric(map[string]interface{}(d)).(map[string]interface{})
+
+	res, err := didtransformer.New().TransformDocument(&protocol.ResolutionModel{Doc: cp}, protocol.TransformationInfo{"id": "did:sidetree:guard", "published": true})
+	if err != nil {
+		return "error"
+	}
+
+	g, _ := generic(res.Document).(map[string]interface{})
+
+	if keys {
+		return digestJSON([]interface{}{g["verificationMethod"], g["authentication"], g["assertionMethod"], g["keyAgreement"], g["capabilityDelegation"], g["capabilityInvocation"]})
+	}
+
+	return digestJSON(g["service"])
 }
 
 // guardView: the keys (services) of a document as the library reads them.
